@@ -7,7 +7,7 @@ import ast
 from ..index import ClassInfo, FuncInfo
 from ..nf import NF, Atom, Undecided, app, atoms_of, lift, nf_equal, single_atom, sym
 from ..values import NONE, Cond, ListV, NoneV, Num, ObjV, OpaqueV, StrV, TupleV, valkey
-from .common import K, N, Pdim, call_method, data_sym, guard_outcomes, new_executor, raise_loc, returns, run
+from .common import both_polarities, K, N, Pdim, call_method, data_sym, guard_outcomes, new_executor, raise_loc, returns, run
 
 EXPLANATION = (
     "Static decision by exhaustive path enumeration of evaluate() for every registered scorer (the `_evaluate` kernels are cut off "
@@ -147,7 +147,7 @@ def check_scorer(ctx, pkg, name, width, inner, mode):
             return c.t[0] == "cmp" and c.t[1] == "<0" and (nf_equal(c.t[2], n - mx) or nf_equal(c.t[2], n - app("maxall", last_col)))
 
         def holds_on(p, pred):
-            for c, v in p.facts:
+            for c, v in both_polarities(p.facts):
                 for sub, vv in _flat_or(c, v):
                     if pred(sub) and vv is False:
                         return True
@@ -160,37 +160,37 @@ def check_scorer(ctx, pkg, name, width, inner, mode):
         ctx.check(ok_high, "C13.b SANITISE-RANGE", f"{name}|upper", ke[0].loc(), "every path to the kernel has established not any(cuts > N), N the fitted row count: no slice is silently truncated", found=_facts(reach[0]), expected=f"a dominating `any(cuts > {n!r})` guard that raises ValueError")
         # fired guards raise ValueError
         for nm, pred in (("lower", lowp), ("upper", highp)):
-            fired = [p for p in paths if any(pred(sub) and vv for c, v in p.facts for sub, vv in _flat_or(c, v))]
+            fired = [p for p in paths if any(pred(sub) and vv for c, v in both_polarities(p.facts) for sub, vv in _flat_or(c, v))]
             if fired:
                 ctx.check(all(p.outcome == "raise" and p.exc.exc_name == "ValueError" for p in fired), "C13.b SANITISE-RANGE", f"{name}|{nm}|raises", raise_loc(fired[0], loc), "an out-of-range cut is rejected with ValueError", found=[(p.outcome, p.exc.exc_name if p.exc else "") for p in fired])
         # ------------------------------------------------ spacing / min_size
         dpred = lambda c: c.t[0] == "any" and c.t[1].t[0] == "cmp" and any(a.kind == "app" and a.args[0] == "diff" for a in atoms_of(c.t[1].t[2]).values())  # noqa: E731
         fired = guard_outcomes(paths, dpred)
-        ok = bool(fired) and all(p.outcome == "raise" and p.exc.exc_name == "ValueError" for p in fired) and all(any(dpred(c) and v is False for c, v in p.facts) for p in reach)
+        ok = bool(fired) and all(p.outcome == "raise" and p.exc.exc_name == "ValueError" for p in fired) and all(any(dpred(c) and v is False for c, v in both_polarities(p.facts)) for p in reach)
         ctx.check(ok, "C13.c CHECK-COMPLETE", f"{name}|spacing", raise_loc(fired[0], loc) if fired else loc, "rows whose consecutive differences are below min_size are rejected with ValueError on every path to the kernel", found=f"{len(fired)} rejecting paths")
         # the bound used is the scorer's own min_size
         ms = _min_size_nf(ex, ctx, pkg, name, inner)
         if ms is not None and fired:
             want = lambda c: c.t[0] == "any" and c.t[1].t[0] == "cmp" and c.t[1].t[1] == "<0" and nf_equal(c.t[1].t[2], app("diff", cuts_s, "none", "none", 1) - ms)  # noqa: E731
             if name != "LocalAnomalyScore":
-                ctx.check(bool(guard_outcomes(paths, want)), "C13.c CHECK-COMPLETE", f"{name}|min-size-bound", raise_loc(fired[0], loc), "the spacing bound is the scorer's own min_size (strictly increasing and at least min_size apart)", found=[repr(c) for p in fired[:1] for c, v in p.facts if dpred(c)], expected=f"any(diff(cuts) < {ms!r})")
+                ctx.check(bool(guard_outcomes(paths, want)), "C13.c CHECK-COMPLETE", f"{name}|min-size-bound", raise_loc(fired[0], loc), "the spacing bound is the scorer's own min_size (strictly increasing and at least min_size apart)", found=[repr(c) for p in fired[:1] for c, v in both_polarities(p.facts) if dpred(c)], expected=f"any(diff(cuts) < {ms!r})")
         if name == "LocalAnomalyScore" and fired:
             # the four cut points need only be strictly increasing: a flank may be a single sample
             # (the pooled surroundings and the inner interval are what min_size bounds)
             want1 = lambda c: c.t[0] == "any" and c.t[1].t[0] == "cmp" and c.t[1].t[1] == "<0" and nf_equal(c.t[1].t[2], app("diff", cuts_s, "none", "none", 1) - 1)  # noqa: E731
-            ctx.check(bool(guard_outcomes(paths, want1)), "C13.c CHECK-COMPLETE", f"{name}|flank-bound", raise_loc(fired[0], loc), "consecutive cut points are required to be strictly increasing only (each flank >= 1 sample); min_size bounds the inner interval and the pooled surroundings, not each flank", found=[repr(c) for p in fired[:1] for c, v in p.facts if dpred(c)], expected="any(diff(cuts) < 1)")
+            ctx.check(bool(guard_outcomes(paths, want1)), "C13.c CHECK-COMPLETE", f"{name}|flank-bound", raise_loc(fired[0], loc), "consecutive cut points are required to be strictly increasing only (each flank >= 1 sample); min_size bounds the inner interval and the pooled surroundings, not each flank", found=[repr(c) for p in fired[:1] for c, v in both_polarities(p.facts) if dpred(c)], expected="any(diff(cuts) < 1)")
         if name == "LocalAnomalyScore":
             ipred = lambda c: c.t[0] == "any" and c.t[1].t[0] == "cmp" and "colstack" in c.key  # noqa: E731
             sized = guard_outcomes(paths, ipred)
-            ok2 = len({c.key for p in sized for c, v in p.facts if ipred(c) and v}) >= 2 and all(p.outcome == "raise" and p.exc.exc_name == "ValueError" for p in sized)
-            ctx.check(ok2, "C13.c CHECK-COMPLETE", f"{name}|inner-and-surrounding", raise_loc(sized[0], loc) if sized else loc, "the inner interval and the pooled surroundings are each bounded below by min_size (two further guards, ValueError)", found=sorted({repr(c)[:120] for p in sized for c, v in p.facts if ipred(c) and v}))
+            ok2 = len({c.key for p in sized for c, v in both_polarities(p.facts) if ipred(c) and v}) >= 2 and all(p.outcome == "raise" and p.exc.exc_name == "ValueError" for p in sized)
+            ctx.check(ok2, "C13.c CHECK-COMPLETE", f"{name}|inner-and-surrounding", raise_loc(sized[0], loc) if sized else loc, "the inner interval and the pooled surroundings are each bounded below by min_size (two further guards, ValueError)", found=sorted({repr(c)[:120] for p in sized for c, v in both_polarities(p.facts) if ipred(c) and v}))
     else:
         # ------------------------------------------------ ndim / dtype / width
         nd = lambda c: c.t[0] == "cmp" and any(a.kind == "app" and a.args[0] == "ndim" for a in atoms_of(c.t[2]).values())  # noqa: E731
         dt = lambda c: c.t[0] == "opq" and "issubdtype" in c.key and "integer" in c.key  # noqa: E731
         wd = lambda c: c.t[0] == "opq" and "shape(" in c.key and ("cmp!=" in c.key or "cmp==" in c.key)  # noqa: E731  (an equality test of the last dimension)
         # ndim: paths to the kernel must have ndim == 2 established (possibly after the 1-D reshape)
-        rej_nd = [p for p in paths if p.outcome == "raise" and any(nd(c) for c, v in p.facts) and not any(dt(c) or (c.t[0] == "not" and dt(c.t[1])) or wd(c) for c, v in p.facts)]
+        rej_nd = [p for p in paths if p.outcome == "raise" and any(nd(c) for c, v in both_polarities(p.facts)) and not any(dt(c) or (c.t[0] == "not" and dt(c.t[1])) or wd(c) for c, v in both_polarities(p.facts))]
         ctx.check(bool(rej_nd) and all(p.exc.exc_name == "ValueError" for p in rej_nd), "C13.c CHECK-COMPLETE", f"{name}|ndim", raise_loc(rej_nd[0], loc) if rej_nd else loc, "arrays that are not 2-D (after a 1-D row vector is reshaped) are rejected with ValueError", found=f"{len(rej_nd)} rejecting paths")
         def dtype_fact(c, v):
             """None if the fact is not about the dtype, else True when it says 'integer'"""
@@ -200,11 +200,11 @@ def check_scorer(ctx, pkg, name, width, inner, mode):
                 return not v
             return None
 
-        fired = [p for p in paths if any(dtype_fact(c, v) is False for c, v in p.facts)]
-        ok = bool(fired) and all(p.outcome == "raise" and p.exc.exc_name == "ValueError" for p in fired) and all(any(dtype_fact(c, v) is True for c, v in p.facts) for p in reach)
+        fired = [p for p in paths if any(dtype_fact(c, v) is False for c, v in both_polarities(p.facts))]
+        ok = bool(fired) and all(p.outcome == "raise" and p.exc.exc_name == "ValueError" for p in fired) and all(any(dtype_fact(c, v) is True for c, v in both_polarities(p.facts)) for p in reach)
         ctx.check(ok, "C13.c CHECK-COMPLETE", f"{name}|dtype", raise_loc(fired[0], loc) if fired else loc, "non-integer cuts are rejected with ValueError on every path to the kernel", found=f"{len(fired)} rejecting paths")
-        firedw = [p for p in paths if p.outcome == "raise" and any(wd(c) for c, v in p.facts) and p.exc.func is not None and "check_cuts" in p.exc.func.name]
-        okw = bool(firedw) and all(p.exc.exc_name == "ValueError" for p in firedw) and all(any(wd(c) for c, v in p.facts) for p in reach)
+        firedw = [p for p in paths if p.outcome == "raise" and any(wd(c) for c, v in both_polarities(p.facts)) and p.exc.func is not None and "check_cuts" in p.exc.func.name]
+        okw = bool(firedw) and all(p.exc.exc_name == "ValueError" for p in firedw) and all(any(wd(c) for c, v in both_polarities(p.facts)) for p in reach)
         ctx.check(okw, "C13.c CHECK-COMPLETE", f"{name}|width", raise_loc(firedw[0], loc) if firedw else loc, "a cuts array with the wrong number of columns is rejected with ValueError", found=f"{len(firedw)} rejecting paths")
         # the expected width is the class's expected_cut_entries
         exp = ctx.P.lookup_class_attr(cls, "expected_cut_entries")
@@ -244,7 +244,7 @@ def _is_nonempty_test(c):
 
 
 def _facts(p):
-    return [f"{c!r}={v}" for c, v in p.facts][-6:]
+    return [f"{c!r}={v}" for c, v in both_polarities(p.facts)][-6:]
 
 
 def _min_size_nf(ex, ctx, pkg, name, inner):
